@@ -29,6 +29,14 @@ def lazy_chains(source):
     return out
 
 
+def eager_chains(source):
+    out = []
+    for ch in gen_harness.chains_for(source):
+        if ch and gen_harness.analyse(ch)[2]:
+            out.append(ch)
+    return out
+
+
 def gen_sched(r, style, nt, n):
     w = max(nt, 1)
     tail = []
@@ -227,6 +235,21 @@ def run_k4(tier, seed):
                 cases.append(line)
                 meta.append((style, inp))
                 cid += 1
+    # computations with an eager (materialising) transformation: both runs are driven by the same pick
+    # list (the eager stage at element granularity); by theorem the value and the call multisets do
+    # not depend on the schedule, so they are compared with the model's round-robin run
+    for src in (["vec", "iterx"] if tier == "quick" else ["vec", "iterx", "iteru", "slice"]):
+        for ch in eager_chains(src):
+            for _ in range(8 if tier == "quick" else per_chain // 3):
+                # order-sensitive terminals, enough elements, adversarial (non-random) styles
+                for _try in range(200):
+                    line, style, inp = gen_case(r, cid + 20000, src, ch, tier)
+                    t0 = k3.fields(line)["term"].split(":")[0]
+                    if len(inp) >= 8 and t0 in ("cv", "cs", "ci", "first", "find", "cx", "cnt", "red") and style != "random":
+                        break
+                cases.append(line)
+                meta.append(("eager_" + style, inp))
+                cid += 1
     for (line, style, inp) in long_chunk_cases(r, cid, tier):
         cases.append(line)
         meta.append((style, inp))
@@ -237,7 +260,9 @@ def run_k4(tier, seed):
         cases.append(line)
         meta.append((style, inp))
     rc1, impl, err1 = k3.parallel_run(bins["k3"], [], cases, shards=8)
-    rc2, model, err2 = k3.parallel_run(DRIVER, ["k3"], cases, shards=16)
+    mcases = [(c.replace(" macro=1", "").replace("fuel=0", "fuel=100000") if st.startswith("eager_") else c)
+              for c, (st, _) in zip(cases, meta)]
+    rc2, model, err2 = k3.parallel_run(DRIVER, ["k3"], mcases, shards=16)
     res = {"total": len(cases), "mismatch": {}, "dist": {}, "samples": [], "errors": [], "nontrivial": 0,
            "inconclusive": 0}
     if rc1 != 0:
@@ -261,6 +286,21 @@ def run_k4(tier, seed):
             mism("run", c, a[:200], m[:200], term, style)
             continue
         if af["res"] == "unsupported":
+            continue
+        if style.startswith("eager_"):
+            if af.get("sched_exhausted") == "1" or mf.get("complete") != "1":
+                res["inconclusive"] += 1
+                continue
+            ar, mr = af["res"], mf["res"]
+            if ar.startswith("B:") and mr.startswith("B:"):
+                ar, mr = sorted(ar[2:].split(",")), sorted(mr[2:].split(","))
+            if ar != mr:
+                mism("result", c, af["res"], mf["res"], term, style)
+            if k3.multiset(af["clog"]) != k3.multiset(mf["clog"]):
+                mism("calls", c, "construction: " + af["clog"][:300], "construction: " + mf["clog"][:300], term, style)
+            if term not in ("find", "findix", "first", "firstix", "any", "all") and k3.multiset(af["calls"]) != k3.multiset(mf["calls"]):
+                mism("calls", c, af["calls"][:300], mf["calls"][:300], term, style)
+            res["nontrivial"] += 1
             continue
         if mf.get("sites", "-") != "-":
             continue            # for_each on a filtered flat_map materialises first: two runs, not replayed here
